@@ -39,6 +39,22 @@ func init() {
 	extend("C17seq", gap7MixedCase("C17"))
 	extend("C20", gap7C20)
 	extend("C06", gap8C06)
+	extend("C01", gap9Scribbler)
+	extend("C02", gap9Scribbler)
+	extend("C18", gap9Scribbler)
+	extend("C02", gap9C02)
+	extend("C03", gap9C03)
+	extend("C04", gap9C04)
+	extend("C05", gap9C05)
+	extend("C06", gap9C06)
+	extend("C15", gap9Names("C15"))
+	extend("C07", gap9C07)
+	extend("C10", gap9C10)
+	extend("C16", gap9C16)
+	extend("C17seq", gap9C17)
+	extend("C18", gap9C18)
+	extend("C19", gap9C19)
+	extend("C20", gap9C20)
 	extend("C07", gap8EmptyName("C07"))
 	extend("C20", gap8EmptyName("C20"))
 	extend("C08", gap8EmptyName("C08"))
@@ -1104,4 +1120,259 @@ func gap8C20(g *Gen, tier string, res *GenOutput) {
 	res.Hists = append(res.Hists, RunHist("add-different-heights", []Frame{long, short, empty}, ops[:11]))
 	res.Hists = append(res.Hists, RunHist("add-different-heights", []Frame{long, short, empty}, ops[11:]))
 	bump(res.Stats, "add-different-heights")
+}
+
+// ---- streams added after the ninth round (free choice, aimed at what a model-based checker is least likely to try) ----
+
+// an aggregation function that scribbles on the slice it is given: the slice is its own, the source frame and
+// the other buckets must not notice (time-ordered rows, so that a bucket is a run of consecutive source rows)
+func gap9Scribbler(g *Gen, tier string, res *GenOutput) {
+	for i := 0; i < scale(tier, 4, 20); i++ {
+		tcol := Col{Key: "ts", Name: "ts", Data: []Cell{}}
+		v := Col{Key: "v", Name: "v", Data: []Cell{}}
+		site := Col{Key: "site", Name: "site", Data: []Cell{}}
+		n := 4 + g.r.Intn(6)
+		for j := 0; j < n; j++ {
+			tcol.Data = append(tcol.Data, TimeCell(time.Date(2021, 3, 1+j/3, 1+j%3, 0, 0, 0, time.UTC)))
+			v.Data = append(v.Data, IntCell("int", int64([]int{3, 1, 2, 9, 7, 8, 5, 4, 6}[j%9])))
+			site.Data = append(site.Data, StrCell(fmt.Sprintf("s%d", j)))
+		}
+		ops := []Op{{K: "resample", F: 0, S1: "ts", S2: "D", Fn: 5}, {K: "row", F: 0, N: 0}, {K: "resample", F: 0, S1: "ts", S2: "M", Fn: 5}, {K: "resample", F: 0, S1: "ts", S2: "H", Fn: 5},
+			{K: "tocsv", F: 0}}
+		res.Hists = append(res.Hists, RunHist("aggregation-scribbles-on-its-argument", []Frame{mkFrame(tcol, v, site)}, ops))
+		bump(res.Stats, "aggregation-scribbles")
+	}
+}
+
+// C02: two reports of one grouped object are separate frames
+func gap9C02(g *Gen, tier string, res *GenOutput) {
+	f := mkFrame(Col{Key: "k0", Name: "k0", Data: []Cell{StrCell("IT"), StrCell("HR"), NilCell(), StrCell("IT"), StrCell("OPS")}}, intCol("v0", 1, 2, 3, 4, 5))
+	seven := StrCell("seven")
+	for _, list := range []bool{false, true} {
+		ag := func(a string, reuse bool) Op {
+			o := Op{K: "groupagg", F: 0, S1: "k0", Agg: a, Cols: []BStr{"v0"}, Reuse: reuse}
+			if list {
+				o.S1, o.GList, o.Strs = "", true, []BStr{"k0"}
+			}
+			return o
+		}
+		ops := []Op{ag("sum", false), ag("count", true), ag("mean", true), {K: "droprow", F: 1, N: 0}, {K: "setcell", F: 2, S1: "GroupKey", N: 1, Cell: &seven}, {K: "fillna", F: 3, Cell: &seven}, ag("sum", true)}
+		res.Hists = append(res.Hists, RunHist("several-reports-of-one-grouping", []Frame{f}, ops))
+		bump(res.Stats, "several-reports-of-one-grouping")
+	}
+}
+
+// C03: keys that are nearly equal floats, column names that differ only in case, names with a comma
+func gap9C03(g *Gen, tier string, res *GenOutput) {
+	near := []float64{0.1 + 0.2, 0.3, 1000000.0001, 1000000.0002, 1, 1 + 2.220446049250313e-16, 5e-324, 0}
+	for i := 0; i < scale(tier, 8, 40); i++ {
+		lk, rk := Col{Key: "k", Name: "k", Data: []Cell{}}, Col{Key: "k", Name: "k", Data: []Cell{}}
+		la, rv := Col{Key: "Name", Name: "Name", Data: []Cell{}}, Col{Key: "name", Name: "name", Data: []Cell{}}
+		for j := 0; j < 3+g.r.Intn(3); j++ {
+			lk.Data = append(lk.Data, F64Cell(near[g.r.Intn(len(near))]))
+			la.Data = append(la.Data, IntCell("int", int64(10+j)))
+		}
+		for j := 0; j < 3+g.r.Intn(3); j++ {
+			rk.Data = append(rk.Data, F64Cell(near[g.r.Intn(len(near))]))
+			rv.Data = append(rv.Data, IntCell("int", int64(100+j)))
+		}
+		res.Hists = append(res.Hists, joinHist("near-equal-float-keys-and-case-colliding-names", mkFrame(lk, la), mkFrame(rk, rv), "k"))
+		bump(res.Stats, "near-equal-float-keys")
+	}
+	for _, key := range []string{"city,state", "last, first", "a,b,c", ","} {
+		l := mkFrame(Col{Key: BStr(key), Name: BStr(key), Data: []Cell{IntCell("int", 1), IntCell("int", 2), IntCell("int", 3)}}, strCol("l", "a", "b", "c"), intCol("city", 7, 8, 9))
+		r := mkFrame(Col{Key: BStr(key), Name: BStr(key), Data: []Cell{IntCell("int", 3), IntCell("int", 1)}}, strCol("r", "x", "y"), intCol("K2", 1, 2), intCol("k2", 3, 4))
+		res.Hists = append(res.Hists, joinHist("key-name-with-a-comma", l, r, key))
+		bump(res.Stats, "key-name-with-a-comma")
+	}
+}
+
+// C04: a missing key that differs from an existing column only in letter case is still missing; a key column
+// whose name contains a comma; key cells with a percent sign
+func gap9C04(g *Gen, tier string, res *GenOutput) {
+	f := mkFrame(strCol("dept", "IT", "HR", "IT"), intCol("score", 1, 2, 3), Col{Key: "city, state", Name: "city, state", Data: []Cell{StrCell("a"), StrCell("b"), StrCell("a")}},
+		strCol("tier", "10%", "10%", "%.0s"), strCol("last", "x", "y", "x"), strCol("first", "p", "p", "q"), strCol("last, first", "m", "n", "m"))
+	ops := []Op{{K: "groupby", F: 0, S1: "Dept"}, {K: "groupby", F: 0, GList: true, Strs: []BStr{"dept", "SCORE"}}, {K: "groupagg", F: 0, S1: "DEPT", Agg: "sum"},
+		{K: "groupby", F: 0, S1: "city, state"}, {K: "groupby", F: 0, S1: "last, first"}, {K: "groupby", F: 0, GList: true, Strs: []BStr{"tier", "dept"}},
+		{K: "groupagg", F: 0, GList: true, Strs: []BStr{"tier", "dept"}, Agg: "count", Cols: []BStr{"score"}}, {K: "groupagg", F: 0, S1: "last, first", Agg: "sum", Cols: []BStr{"score"}}}
+	res.Hists = append(res.Hists, RunHist("key-names-by-case-and-comma", []Frame{f}, ops))
+	bump(res.Stats, "key-names-by-case-and-comma")
+}
+
+// C05: a value column whose name looks like the printed key list; percent signs in key cells; a rejected
+// aggregation leaves the grouped object usable
+func gap9C05(g *Gen, tier string, res *GenOutput) {
+	f := mkFrame(intCol("year", 2020, 2020, 2021), intCol("month", 1, 2, 1), Col{Key: "[year month]", Name: "[year month]", Data: []Cell{IntCell("int64", 5), IntCell("int64", 6), IntCell("int64", 7)}},
+		intCol("sales", 10, 20, 30), strCol("tier", "10%", "5%", "10%"), Col{Key: "year|month", Name: "year|month", Data: []Cell{IntCell("int", 1), IntCell("int", 2), IntCell("int", 3)}})
+	ks := []BStr{"year", "month"}
+	ops := []Op{{K: "groupagg", F: 0, GList: true, Strs: ks, Agg: "sum"}, {K: "groupagg", F: 0, GList: true, Strs: ks, Agg: "mean"}, {K: "groupagg", F: 0, GList: true, Strs: []BStr{"tier", "year"}, Agg: "sum", Cols: []BStr{"sales"}},
+		{K: "groupagg", F: 0, S1: "year", Agg: "sum", Cols: []BStr{"sales", "sales"}}, {K: "groupagg", F: 0, S1: "year", Agg: "sum", Cols: []BStr{"sales"}, Reuse: true},
+		{K: "groupagg", F: 0, S1: "year", Agg: "mean", Cols: []BStr{"GroupKey"}, Reuse: true}, {K: "groupagg", F: 0, S1: "year", Agg: "count", Cols: []BStr{"sales"}, Reuse: true}}
+	res.Hists = append(res.Hists, RunHist("odd-value-names-and-rejected-aggregations", []Frame{f}, ops))
+	bump(res.Stats, "odd-value-names-and-rejected-aggregations")
+}
+
+// column names with leading or trailing blanks are names like any other (a CSV header "name, score" gives " score")
+func gap9Names(prop string) func(g *Gen, tier string, res *GenOutput) {
+	return func(g *Gen, tier string, res *GenOutput) {
+		f := mkFrame(Col{Key: " score", Name: " score", Data: []Cell{F64Cell(3), F64Cell(1), F64Cell(2)}}, Col{Key: "x", Name: "x", Data: []Cell{IntCell("int", 1), IntCell("int", 3), IntCell("int", 2)}},
+			Col{Key: "x ", Name: "x ", Data: []Cell{IntCell("int", 9), IntCell("int", 8), IntCell("int", 7)}}, strCol(" day", "2021-03-04", "2021-03-05", "2021-03-06"))
+		t := true
+		var ops []Op
+		if prop == "C06" {
+			ops = []Op{{K: "sort", F: 0, Strs: []BStr{" score"}, Asc: &t}, {K: "sort", F: 0, Strs: []BStr{"x "}}, {K: "sort", F: 0, Strs: []BStr{"score"}}, {K: "sort", F: 0, Strs: []BStr{"x", "x "}}}
+		} else {
+			ops = []Op{{K: "astype", F: 0, S1: " score", S2: "int"}, {K: "astype", F: 0, S1: "x ", S2: "float64"}, {K: "astype", F: 0, S1: "score", S2: "int"}, {K: "datetime", F: 0, S1: " day", S2: "2006-01-02"},
+				{K: "datetime", F: 0, S1: "day", S2: "2006-01-02"}, {K: "row", F: 0, N: 0}}
+		}
+		res.Hists = append(res.Hists, RunHist("names-with-outer-blanks", []Frame{f}, ops))
+		bump(res.Stats, "names-with-outer-blanks")
+	}
+}
+
+// C06: many sort columns with many distinct values each (the product of the cardinalities is astronomically large)
+func gap9C06(g *Gen, tier string, res *GenOutput) {
+	gap9Names("C06")(g, tier, res)
+	t, fl := true, false
+	for _, shape := range [][2]int{{16, 24}, {8, 60}} {
+		nk, n := shape[0], shape[1]
+		cols := []Col{}
+		by := []BStr{}
+		for j := 0; j < nk; j++ {
+			c := Col{Key: BStr(fmt.Sprintf("s%02d", j)), Name: BStr(fmt.Sprintf("s%02d", j)), Data: []Cell{}}
+			perm := g.r.Perm(n)
+			for i := 0; i < n; i++ {
+				v := perm[i]
+				if j < 2 {
+					v = perm[i] / (n / 3) // ties on the first keys, so that the later ones decide
+				}
+				c.Data = append(c.Data, IntCell("int", int64(v)))
+			}
+			cols = append(cols, c)
+			by = append(by, c.Key)
+		}
+		ops := []Op{{K: "sort", F: 0, Strs: by, Asc: &t}, {K: "sort", F: 0, Strs: by, Asc: &fl}}
+		res.Hists = append(res.Hists, RunHist(fmt.Sprintf("many-sort-columns %dx%d", nk, n), []Frame{mkFrame(cols...)}, ops))
+		bump(res.Stats, "many-sort-columns")
+	}
+}
+
+// C07: very wide frames with small value domains per column
+func gap9C07(g *Gen, tier string, res *GenOutput) {
+	for _, shape := range [][3]int{{65, 3, 2}, {66, 3, 2}, {17, 17, 16}} {
+		nc, n, dom := shape[0], shape[1], shape[2]
+		cols := []Col{}
+		for j := 0; j < nc; j++ {
+			c := Col{Key: BStr(fmt.Sprintf("f%02d", j)), Name: BStr(fmt.Sprintf("f%02d", j)), Data: []Cell{}}
+			for i := 0; i < n; i++ {
+				switch {
+				case dom == 2 && i == 1 && j == 0:
+					c.Data = append(c.Data, BoolCell(true)) // row 1 differs from row 0 in the first column only
+				case dom == 2:
+					c.Data = append(c.Data, BoolCell(i == 2 && j%2 == 1))
+				default:
+					c.Data = append(c.Data, IntCell("int", int64((i*(j+1)+i/16)%dom)))
+				}
+			}
+			cols = append(cols, c)
+		}
+		ops := []Op{{K: "dedup", F: 0}, {K: "dedup", F: 0, HasOpt: true, Strs: []BStr{}, S1: "last"}, {K: "dedup", F: 0, HasOpt: true, Strs: []BStr{}, S1: "none"}, {K: "dedupinplace", F: 0, S1: "first"}}
+		res.Hists = append(res.Hists, RunHist(fmt.Sprintf("wide-frame %d columns", nc), []Frame{mkFrame(cols...)}, ops))
+		bump(res.Stats, "wide-frame")
+	}
+}
+
+// C10: byte-order marks are bytes of the first header name; every kind of reader
+func gap9C10(g *Gen, tier string, res *GenOutput) {
+	ins := []string{"\xff\xfe,x\n1,2\n", "\xfe\xff,b\n1,2,3\n", "\xef\xbb\xbfid,name\n1,a\n", "\xff\xfea\x00,\x00b\x00\n\x001\x00,\x002\x00\n\x00", "a,b\n1,2\n3,4", "a,a\n1,2\n", "#id,name\n#1,x\n2,#y\n"}
+	for _, in := range ins {
+		ops := []Op{}
+		for fl := 0; fl < 6; fl++ {
+			ops = append(ops, Op{K: "fromcsv", Bytes: BStr(in), N: int64(fl)})
+		}
+		ops = append(ops, Op{K: "fromcsv", Bytes: BStr(in), ViaFile: true})
+		res.Hists = append(res.Hists, RunHist("byte-order-marks-and-reader-kinds", []Frame{}, ops))
+		bump(res.Stats, "byte-order-marks-and-reader-kinds")
+	}
+}
+
+// C16: values that are nearly tied, the more extreme one later in the column
+func gap9C16(g *Gen, tier string, res *GenOutput) {
+	cols := [][]Cell{{IntCell("int64", 1700000603), IntCell("int64", 1700000602), IntCell("int64", 1700000601), IntCell("int64", 1700000600)},
+		{IntCell("int64", 5000000007), IntCell("int64", 5000000003), IntCell("int64", 5000000009), IntCell("int64", 5000000001)},
+		{F64Cell(0.1 + 0.2), F64Cell(0.3), F64Cell(0.30000000000000004), F64Cell(0.29999999999999993)},
+		{F64Cell(1e6 + 3e-5), F64Cell(1e6 + 2e-5), F64Cell(1e6 + 4e-5), F64Cell(1e6)}}
+	for i, d := range cols {
+		f := mkFrame(Col{Key: "v", Name: "v", Data: d})
+		ops := []Op{{K: "agg", F: 0, Agg: "min"}, {K: "agg", F: 0, Agg: "max"}, {K: "describe", F: 0}, {K: "agg", F: 0, Agg: "mean"}}
+		res.Hists = append(res.Hists, RunHist(fmt.Sprintf("near-ties #%d", i), []Frame{f}, ops))
+		bump(res.Stats, "near-ties")
+	}
+	// zero-padded and prefixed numeric strings are decimal (ParseFloat), never octal or hex integers
+	s := mkFrame(strCol("a", "010", "0100", "0031", "-017"), strCol("b", "0x1F", "1", "2", "3"), strCol("c", "099", "0100", "08", "1_000"))
+	ops := []Op{{K: "agg", F: 0, Agg: "sum"}, {K: "describe", F: 0}, {K: "add", F: 0, G: 0}, {K: "agg", F: 0, Agg: "max"}}
+	res.Hists = append(res.Hists, RunHist("zero-padded-numeric-strings", []Frame{s}, ops))
+	bump(res.Stats, "zero-padded-numeric-strings")
+}
+
+// C17: a function that appends to its argument (spare capacity must be its own); column-wise results of another
+// length (a summary, a filter)
+func gap9C17(g *Gen, tier string, res *GenOutput) {
+	one, zero := []int64{1}, []int64{0}
+	for _, n := range []int{2, 6, 40} {
+		a := Col{Key: "a", Name: "a", Data: []Cell{}}
+		b := Col{Key: "b", Name: "b", Data: []Cell{}}
+		for i := 0; i < n; i++ {
+			a.Data = append(a.Data, IntCell("int", int64(10*(i+1))))
+			b.Data = append(b.Data, IntCell("int", int64(i)))
+		}
+		ops := []Op{{K: "apply", F: 0, Fn: 15, Axis: &one}, {K: "apply", F: 0, Fn: 15, Axis: &zero}, {K: "apply", F: 0, Fn: 10, Axis: &zero}, {K: "apply", F: 0, Fn: 11}, {K: "apply", F: 0, Fn: 12}, {K: "apply", F: 0, Fn: 13, Axis: &zero}}
+		res.Hists = append(res.Hists, RunHist(fmt.Sprintf("appending-function rows=%d", n), []Frame{mkFrame(a, b)}, ops))
+		bump(res.Stats, "appending-function")
+	}
+}
+
+// C18: a value column called GroupKey (the name the grouped reports use)
+func gap9C18(g *Gen, tier string, res *GenOutput) {
+	tcol := Col{Key: "t", Name: "t", Data: []Cell{}}
+	for j := 0; j < 4; j++ {
+		tcol.Data = append(tcol.Data, TimeCell(time.Date(2021, 3, 1+j/2, 5, j, 0, 0, time.UTC)))
+	}
+	f := mkFrame(tcol, intCol("GroupKey", 1, 2, 3, 4), strCol("stat", "a", "b", "c", "d"), intCol("index", 4, 3, 2, 1))
+	ops := []Op{}
+	for _, fq := range []string{"D", "H", "T"} {
+		ops = append(ops, Op{K: "resample", F: 0, S1: "t", S2: BStr(fq), Fn: 1}, Op{K: "resample", F: 0, S1: "t", S2: BStr(fq), Fn: 0})
+	}
+	res.Hists = append(res.Hists, RunHist("library-known-value-column-names", []Frame{f}, ops))
+	bump(res.Stats, "library-known-value-column-names")
+}
+
+// C19: Shift after AddDatetimeIndex moves the datetime column like every other; frames with more columns than
+// the machine has CPUs
+func gap9C19(g *Gen, tier string, res *GenOutput) {
+	f := mkFrame(strCol("day", "2021-03-04", "2021-03-05", "2021-03-06", "2021-03-07"), intCol("v", 1, 2, 3, 4))
+	ops := []Op{{K: "datetime", F: 0, S1: "day", S2: "2006-01-02"}, {K: "shift", F: 0, N: 1}, {K: "shift", F: 1, N: -1}, {K: "shift", F: 0, N: -2}, {K: "shift", F: 0, N: 9}}
+	res.Hists = append(res.Hists, RunHist("shift-after-datetime-index", []Frame{f}, ops))
+	bump(res.Stats, "shift-after-datetime-index")
+	for _, nc := range []int{17, 50, 100} {
+		cols := []Col{}
+		for j := 0; j < nc; j++ {
+			cols = append(cols, intCol(fmt.Sprintf("k%03d", j), int64(j), int64(j+1), int64(j+2)))
+		}
+		ops := []Op{{K: "shift", F: 0, N: 1}, {K: "shift", F: 0, N: -1}, {K: "appendrow", F: 1, Row: []KV{{K: "k000", V: IntCell("int", -1)}}}, {K: "shift", F: 0, N: 0}}
+		res.Hists = append(res.Hists, RunHist(fmt.Sprintf("wide-frame %d columns", nc), []Frame{mkFrame(cols...)}, ops))
+		bump(res.Stats, "wide-frame")
+	}
+}
+
+// C20: a grouped object stays usable after a request it rejected
+func gap9C20(g *Gen, tier string, res *GenOutput) {
+	f := mkFrame(strCol("k", "a", "b", "a"), intCol("v", 1, 2, 3))
+	ag := func(a string, cols []BStr, reuse bool) Op {
+		return Op{K: "groupagg", F: 0, S1: "k", Agg: a, Cols: cols, Reuse: reuse}
+	}
+	ops := []Op{ag("sum", []BStr{"v"}, false), ag("sum", []BStr{"v", "v"}, true), ag("sum", []BStr{"v"}, true), ag("mean", []BStr{"GroupKey"}, true), ag("count", []BStr{"v"}, true),
+		{K: "groupby", F: 0, S1: "k", Reuse: true}}
+	res.Hists = append(res.Hists, RunHist("grouped-object-after-a-rejected-request", []Frame{f}, ops))
+	bump(res.Stats, "grouped-object-after-a-rejected-request")
 }
